@@ -1,4 +1,5 @@
 import PbProofs.Reader
+import PbModel.Gen.Reader
 
 /-! # C11 — Readers are position-faithful, stateless and agree with the underlying file
 
@@ -113,6 +114,25 @@ theorem C11_shared_handle_breaks :
       (runShared (fun i => i) [⟨0, 2⟩, ⟨5, 2⟩] sched ⟨0, [0, 0], [[], []]⟩).outs[0]? ≠
         some (solo (fun i => i) ⟨0, 2⟩) :=
   ⟨[0, 0, 1, 1, 0, 1], by decide⟩
+
+/-- **translator tie**: the literals and comparison operators of the reader sources (regenerated on
+every run) are those of the model — real baseband seeks `2·offset`, reads `2·n` and has length
+`shape[0] // 2` (other modes unscaled: `window`, `Desc.len`); every read runs inside
+`with self._get_fh() as fh` on a handle from `baseband.open`; GUPPI and DADA-Stokes transpose
+`(0, 2, 1)` and the latter flips the last axis; `read` rejects `offset + n > len(self)` after two
+`< 0` tests and stamps `time_at(offset)`; `offset_at` rounds and rejects `< 0` / `> len`. -/
+theorem C11_source_literals (d : Desc) (o n : Nat) (hm : d.mode = .realBaseband) :
+    Gen.Reader.extractOk = true ∧
+    window d o n = ((Gen.Reader.seekFactor.toNat) * o, (Gen.Reader.readFactor.toNat) * n) ∧
+    d.len = d.fileLen / Gen.Reader.lenDiv.toNat ∧ Gen.Reader.elsePlain = true ∧
+    Gen.Reader.freshHandle = true ∧
+    Gen.Reader.transposes = [[0, 2, 1], [0, 2, 1]] ∧ Gen.Reader.flipAxis = -1 ∧
+    Gen.Reader.boundOp = "offset + n > len(self)" ∧ Gen.Reader.negChecks = 2 ∧
+    Gen.Reader.offsetOps = ["offset < 0", "offset > len(self)"] ∧ Gen.Reader.rounds = true ∧
+    Gen.Reader.stampIsTimeAtOffset = true := by
+  refine ⟨by decide, ?_, ?_, by decide, by decide, by decide, by decide, by decide, by decide, by decide, by decide, by decide⟩
+  · unfold window; rw [if_pos hm]; rfl
+  · unfold Desc.len; rw [if_pos hm]; rfl
 
 /-! Non-vacuity: concrete accepted and rejected reads, a transposed/flipped element, a schedule. -/
 example : (readOp ⟨.generic, .realBaseband, 17, 2, 4, fun _ _ => false⟩ 1 (.int 3) (.int 5)).toOption.map
